@@ -124,6 +124,12 @@ func runC17(r *run) {
 					slog.SetFlags(slog.GetFlags() | slog.LnoInterrupt)
 					outW, errW := &recorder{}, &recorder{}
 					pl := slog.New("c17route").SetWriter(outW).SetErrorWriter(errW).SetLevel(slog.AlwaysLevel)
+					if l%2 == 1 {
+						// a writer of its own for that level that is taken away again: the device of the registration applies
+						gone := &recorder{}
+						pl.AddLevelWriter(L, gone)
+						pl.RemoveLevelWriter(L, gone)
+					}
 					func() {
 						defer func() { _ = recover() }()
 						pl.Logit(context.Background(), L, "route probe")
